@@ -15,11 +15,12 @@
     attrs_has_iff_get attrs_slice_spec attrs_sub_nodup attrs_or_sub_nodup attrs_totuple_append
     qname_pickle_roundtrip qname_parse ns_getitem_in
     stripentities_keepxml_escape striptags_no_tag attrs_get_or escape2_append unescape_no_entity
-    mod2_percent_s striptags_keeps_plain_text striptags_removes_simple_tag mod2_percent_key
+    mod2_percent_s striptags_keeps_plain_text striptags_removes_simple_tag mod2_percent_key striptags_re_as_modelled
 -/
 import Genshi.Lemmas.Escape
 import Genshi.Lemmas.MarkupOps
 import Genshi.Lemmas.MarkupFmt
+import Genshi.Gen.MarkupRe
 namespace Genshi.Props.C18
 open Genshi.Escape Genshi.Str
 
@@ -660,6 +661,14 @@ theorem mod2_percent_key (i : Impl) (lits ks : List (List Char)) (kvs : List (Li
   have := fmtMap_piecesOfK (kvs.map fun p => (p.1, once2 true p.2)) lits [] ks hlen hin
   simp only [List.nil_append] at this
   simp [this, bind, Except.bind, pure, Except.pure]
+
+/-- The regular expression of `genshi.util.striptags`, as the translator reads it from the code
+    on every run, is the one the scanner `matchTag` was written against: `(<!--.*?-->|<[^>]*>)`
+    without DOTALL (`afterCommentEnd` stops at a line feed). -/
+theorem striptags_re_as_modelled :
+    Genshi.Gen.MarkupRe.striptagsDotall = false ∧
+    Genshi.Gen.MarkupRe.striptagsShape = ['G', '1', '(', 'L', 'I', 'T', '6', '0', ' ', 'A', 'L', 'T', '(', 'L', 'I', 'T', '3', '3', ' ', 'L', 'I', 'T', '4', '5', ' ', 'L', 'I', 'T', '4', '5', ' ', 'M', 'I', 'N', '{', '0', ',', 'I', 'N', 'F', '}', '(', 'A', 'N', 'Y', ')', ' ', 'L', 'I', 'T', '4', '5', ' ', 'L', 'I', 'T', '4', '5', ' ', 'L', 'I', 'T', '6', '2', '|', 'M', 'A', 'X', '{', '0', ',', 'I', 'N', 'F', '}', '(', 'N', 'O', 'T', 'L', 'I', 'T', '6', '2', ')', ' ', 'L', 'I', 'T', '6', '2', ')', ')'] := by
+  decide
 
 end Wave4
 
